@@ -144,4 +144,96 @@ def handleFold (payload impl : String) : String × String :=
       | _ => "FAIL unparsable-impl-answer"
     (model, verdict)
 
+/-! #### size -/
+
+/-- Rebuild bottom-up through the culling constructor; culled values get ids `10^6 + counter`. -/
+def buildLim (limit : Option Nat) : SV → Nat → SV × Nat
+  | .node k attrs ks _, ctr =>
+    let rec go : List SV → Nat → List SV × Nat
+      | [], c => ([], c)
+      | x :: xs, c =>
+        let (x', c1) := buildLim limit x c
+        let (xs', c2) := go xs c1
+        (x' :: xs', c2)
+    let (ks', c) := go ks ctr
+    (SV.mk limit (1000000 + c) k attrs ks', c + 1)
+
+mutual
+def collectIds : SV → List Nat → List Nat
+  | .node k attrs ks _, acc =>
+    let acc := if (k == .value || k == .callData) then (match attrs with | i :: _ => if acc.contains i then acc else i :: acc | [] => acc) else acc
+    collectIdsList ks acc
+def collectIdsList : List SV → List Nat → List Nat
+  | [], acc => acc
+  | k :: ks, acc => collectIdsList ks (collectIds k acc)
+end
+
+/-- Renumber generated ids (>= 10^6) by first occurrence in print order to the next unused
+small numbers — the same canonicalisation the harness applies to fresh `Uuid`s. -/
+structure Renum where
+  used : List Nat
+  map : List (Nat × Nat)
+  next : Nat
+
+def Renum.get (r : Renum) (i : Nat) : Renum × Nat :=
+  if i < 1000000 then (r, i) else
+  match r.map.lookup i with
+  | some j => (r, j)
+  | none =>
+    let rec findFree (fuel n : Nat) : Nat :=
+      match fuel with
+      | 0 => n
+      | fuel + 1 => if r.used.contains n then findFree fuel (n + 1) else n
+    let j := findFree (r.used.length + 1) r.next
+    ({ used := j :: r.used, map := (i, j) :: r.map, next := j + 1 }, j)
+
+mutual
+def renumber : SV → Renum → SV × Renum
+  | .node k attrs ks s, r =>
+    let (attrs', r1) :=
+      if (k == .value || k == .callData) then
+        (match attrs with
+         | i :: rest => let (r', j) := r.get i; (j :: rest, r')
+         | [] => (attrs, r))
+      else (attrs, r)
+    let (ks', r2) := renumberList ks r1
+    (.node k attrs' ks' s, r2)
+def renumberList : List SV → Renum → List SV × Renum
+  | [], r => ([], r)
+  | k :: ks, r =>
+    let (k', r1) := renumber k r
+    let (ks', r2) := renumberList ks r1
+    (k' :: ks', r2)
+end
+
+def handleSize (payload impl : String) : String × String :=
+  match payload.splitOn " " with
+  | lim :: rest =>
+    let limit : Option Nat := if lim == "none" then none else lim.toNat?
+    match parseSV (" ".intercalate rest) with
+    | none => ("bad-request", "ok")
+    | some t0 =>
+      let (built, _) := buildLim limit t0 0
+      let folded := fold built
+      let r0 : Renum := { used := collectIds t0 [], map := [], next := 0 }
+      let (b', r1) := renumber built r0
+      let (f', _) := renumber folded r1
+      let model := printSV b' ++ " ;; " ++ printSV f'
+      let verdict :=
+        if impl.startsWith "PANIC" then "FAIL panic:" ++ impl
+        else match impl.splitOn " ;; " with
+        | [a, b] =>
+          match parseSV a, parseSV b with
+          | some ia, some ib =>
+            if !(sizesTrue ia) then "FAIL recorded-size:built"
+            else if !(sizesTrue ib) then "FAIL recorded-size:folded"
+            else match limit with
+              | some l => if nodeCount ia > max l 1 then s!"FAIL over-limit:{nodeCount ia}>{l}"
+                          else if nodeCount ib > max l 1 then s!"FAIL over-limit-after-fold:{nodeCount ib}>{l}" else "ok"
+              | none => "ok"
+          | _, _ => "FAIL unparsable-impl-answer"
+        | _ => "FAIL unparsable-impl-answer"
+      (model, verdict)
+  | _ => ("bad-request", "ok")
+
 end SLE.Driver.Value
